@@ -18,8 +18,8 @@ LINKS = {0: "sd", 1: "ds"}
 
 
 class Pair:
-    def __init__(self, cfg: dict):
-        self.w = World(cfg)
+    def __init__(self, cfg: dict, keep_clock: bool = False):
+        self.w = World(cfg, keep_clock=keep_clock)
         self.w.pair = True
         self.q = {"sd": [], "ds": []}
         self.cut: set[str] = set()
@@ -163,13 +163,22 @@ class Pair:
             raise ValueError(a)
 
     # ---- canonical entity loop (the model's Pacing = "canon" without faults) ----
-    def run_on(self, max_turns: int = 400, idle_ticks: int = 12) -> bool:
+    def run_on(self, max_turns: int = 400, idle_ticks: int = 12, script: dict | None = None, one_txn: bool = False, sibling=None) -> bool:
+        """script: {(link, n): kind} faults applied to the n-th PDU delivered from that link during this call (C11);
+        one_txn: return when the current transaction is over; sibling: callable stepped between turns (C11)."""
         cfg = self.w.cfg
+        script = dict(script or {})
+        seen = {"sd": 0, "ds": 0}
         dt = max(cfg["ackInt"], cfg["nakInt"], cfg["chkInt"])
         turn, calm, idle = "S", 0, 0
         for _ in range(max_turns):
+            if sibling is not None:
+                sibling()
+            for link in ("sd", "ds"):       # scripted faults hit the PDU that is delivered next on that link
+                if self.q[link] and (link, seen[link]) in script and turn == ("D" if link == "sd" else "S"):
+                    self.fault(script.pop((link, seen[link])), link)
             if self.done():
-                if not self.more_to_put():
+                if not self.more_to_put() or one_txn:
                     return True
                 self.put(self.w.cfg["more"][self.txn - 1]["gap"])
                 turn, calm, idle = "S", 0, 0
@@ -183,6 +192,7 @@ class Pair:
                 continue
             n_ev = len(self.w.ev)
             if turn == "S":
+                seen["ds"] += 1 if self.q["ds"] else 0
                 if self.src_closed():
                     busy = bool(self.q["ds"])
                     self.src_entity()
@@ -191,6 +201,7 @@ class Pair:
                     e = self.src_call(d)
                     busy = d or bool(e["out"]) or e["pre"] != e["post"]
             else:
+                seen["sd"] += 1 if self.q["sd"] else 0
                 if self.dst_closed():
                     busy = bool(self.q["sd"])
                     self.dst_entity()
